@@ -18,6 +18,26 @@ NOTES = {
     'r2c_3': 'strengthened from its description before the evaluation ran: run-time edits of the instance alias map / preferred names as opaque extras in C11 histories',
     'r2c_4': 'strengthened from its description before the evaluation ran: label-slice reads on the original before and on the result after reindex',
     'r2c_5': 'strengthened from its description before the evaluation ran: underscore-prefixed and non-ASCII variable names in eval()',
+    'r3a_1': 'strengthened from its description before the evaluation ran: tiny value scale (2**-600) in the Solver replay, where a squared difference underflows',
+    'r3a_3': 'missed at first (C04 never passed an offset that points outside the span; the empty-endogenous model added from the description was not enough); caught after C04 also requests out-of-span offsets and demands IndexError with nothing changed',
+    'r3a_7': 'strengthened from its description before the evaluation ran: a string and a boolean variable in every traced model',
+    'r3b_1': 'strengthened from its description before the evaluation ran: long identifiers among the C13 fuzz seeds',
+    'r3b_2': 'missed at first (no layout produced a carriage return, no program had a verbatim statement); caught after Script.tla gained verbatim statements (layer vstmt) and the catalogue a CRLF layout',
+    'r3b_3': 'strengthened from its description before the evaluation ran: a caller-placed verbatim symbol ahead of the equations in the C15 converter check',
+    'r3b_6': 'strengthened from its description before the evaluation ran: long Fortran equations with parenthesised literal groups (continuation lines)',
+    'r3b_7': 'missed at first (no token contained significant inner blanks); caught after Script.tla gained verbatim fragments (PushVerb, layer verb) whose text holds runs of blanks and quotes',
+    'r3c_3': 'strengthened from its description before the evaluation ran: a tuple with mutable members as the probe attribute of C11 histories',
+    'r3c_4': 'strengthened from its description before the evaluation ran: new spans also given in string spelling in the C12 replay',
+    'r3c_5': 'strengthened from its description before the evaluation ran: labels with inner blanks in eval() index brackets',
+    'r3c_6': 'missed at first (no alias was spelt like an attribute of the class); caught after the attribute-like name map (size, CODE, values, copy) was added to the C18 replay',
+    'r3c_7': 'missed at first (class-level variables were always float); caught after Tabular.tla gained models constructed with dtype=int / dtype=bool',
+    'r4a_2': 'first evaluation ended in a machinery failure (exit 2: an unguarded ZeroDivisionError of a generated program with a literal zero divisor in the C04 replay, on the unchanged tree too - introduced with the verbatim-statement layer and repaired); caught once the check ran',
+    'r4a_3': 'missed at first (NumPy spans were ascending); caught after descending and permuted NumPy spans were added to the C05 replay',
+    'r4b_5': 'missed at first (comments of the catalogue held no backtick); caught after the comments layout got backticks',
+    'r4b_6': 'missed at first (CODE was compared with the definition text only for default-converter builds); caught after every converter build, and a default build after it, is compared too',
+    'r4b_7': 'first evaluation ended in a machinery failure (same unguarded ZeroDivisionError, C20 replay); caught once the check ran',
+    'r4c_3': 'missed at first (every operation received a fresh operand object and K-copy added variables from scalars only); caught after equal array operands are one object across operations and K-copy adds a variable from an array on either side',
+    'r4c_7': 'missed at first (labels were ascending everywhere); caught after the C19 replay also uses descending and rotated labels for list / NumPy / pandas Index spans',
     'c14_b': 'missed at first (comments of the catalogue had balanced brackets); caught after the comments layout got unmatched brackets',
 }
 
